@@ -376,7 +376,10 @@ class DeribitWorld:
                     "time": pd.Timestamp(h), "instrument_name": ins["name"], "state": state, "type": ins["kind"],
                     "strike_price": K, "t": pd.Timedelta(ins["expiry"] - h), "expiry_time": pd.Timestamp(ins["expiry"]),
                     "vega": 1.0, "theta": -1.0, "rho": 0.5, "gamma": round(rng.uniform(0.0001, 0.004), 5),
-                    "delta": round(rng.uniform(-1, 1), 5), "underlying_price": round(under, 2), "settlement_price": float("nan"),
+                    "delta": round(rng.uniform(-1, 1), 5), "underlying_price": round(under, 2),
+                    # the option's own daily settlement price (in coins, about the size of its mark): empty for an instrument
+                    # younger than a day, filled otherwise
+                    "settlement_price": round(mark * 0.97, 6) if (K // step_k) % 3 == 0 else float("nan"),
                     "mark_price": mark, "mark_iv": 50.0, "last_price": mark, "interest_rate": 0.0, "bid_iv": 45.0,
                     "best_bid_price": bids[0][0] if bids else 0.0, "best_bid_amount": bids[0][1] if bids else 0.0,
                     "ask_iv": 55.0, "best_ask_price": asks[0][0] if asks else 0.0, "best_ask_amount": asks[0][1] if asks else 0.0,
@@ -474,6 +477,11 @@ class GmxWorld:
         from demeter.gmx import GmxMarket
 
         m = GmxMarket(MarketInfo(name, MarketTypeEnum.gmx_v1), tokens=list(self.tokens))
+        # the way tokens get registered varies with the world (by its first token's name, no extra random draw): all at once,
+        # or again one by one (a token the market already knows is still one token of the whitelist)
+        if sum(map(ord, self.tokens[0].name)) % 3 == 0 or len(self.tokens) % 2:
+            m.add_token(self.tokens[0])
+            m.add_token(list(self.tokens[-2:]))
         m.data = self.data.copy()
         return m
 
